@@ -163,7 +163,8 @@ func (b *Batch) Files() map[string]string {
 	for _, ch := range b.Chains {
 		fmt.Fprintf(&body, "func chain%d() {\n", ch.ID)
 		fmt.Fprintf(&body, "\tx0 := rt.Source(%d)\n", ch.ID)
-		for j, ln := range ch.Links {
+		links, sinkForm := SplitSinkForm(ch.Links)
+		for j, ln := range links {
 			l := GetLink(ln)
 			u := fmt.Sprintf("_%d_%d", ch.ID, j)
 			rep := strings.NewReplacer(
@@ -197,9 +198,18 @@ func (b *Batch) Files() map[string]string {
 		if b.SecondSource {
 			// a second, independent source reaches the same sink call (exercises the merging of results)
 			fmt.Fprintf(&body, "\ty%d := string(rt.SourceB(%d))\n", ch.ID, SecondSourceBase+ch.ID)
-			fmt.Fprintf(&body, "\trt.Sink(%d, x%d+y%d)\n", ch.ID, len(ch.Links), ch.ID)
+			fmt.Fprintf(&body, "\trt.Sink(%d, x%d+y%d)\n", ch.ID, len(links), ch.ID)
+		} else if sinkForm != "" {
+			for _, im := range SinkForms[sinkForm].Imports {
+				imports[im] = true
+			}
+			rep := strings.NewReplacer("$id", fmt.Sprintf("%d", ch.ID), "$v", fmt.Sprintf("x%d", len(links)), "$u", fmt.Sprintf("_%d_s", ch.ID))
+			fmt.Fprintf(&body, "\t// sink form %s\n", sinkForm)
+			for _, bl := range strings.Split(rep.Replace(SinkForms[sinkForm].Body), "\n") {
+				body.WriteString("\t" + bl + "\n")
+			}
 		} else {
-			fmt.Fprintf(&body, "\trt.Sink(%d, x%d)\n", ch.ID, len(ch.Links))
+			fmt.Fprintf(&body, "\trt.Sink(%d, x%d)\n", ch.ID, len(links))
 		}
 		body.WriteString("}\n\n")
 	}
@@ -240,4 +250,36 @@ func sortedKeys(m map[string]bool) []string {
 	}
 	sort.Strings(l)
 	return l
+}
+
+// SinkForm is a way of calling the sink other than a plain call statement. A chain selects one by ending with the
+// pseudo-link "@sink<name>"; sub-chains that drop it fall back to the plain call, so attribution works unchanged.
+type SinkForm struct {
+	Imports []string
+	Body    string // $id, $v, $u; exactly one line contains "rt.Sink($id, "
+}
+
+// SinkForms lists the terminal pseudo-links.
+var SinkForms = map[string]SinkForm{
+	"@sinkdefer":        {Body: "defer rt.Sink($id, $v)"},
+	"@sinkdeferclosure": {Body: "defer func() {\n\trt.Sink($id, $v)\n}()"},
+	"@sinkgo":           {Body: "d$u := make(chan bool)\ngo func(s string) {\n\trt.Sink($id, s)\n\td$u <- true\n}($v)\n<-d$u"},
+	"@sinkloop":         {Body: "for i$u := 0; i$u < 2; i$u++ {\n\trt.Sink($id, $v)\n}"},
+	"@sinkcbuser":       {Body: "func(f func(string)) { f($v) }(func(p string) {\n\trt.Sink($id, p)\n})"},
+	"@sinkcbmap":        {Imports: []string{"strings"}, Body: "_ = strings.Map(func(r rune) rune {\n\trt.SinkR($id, r)\n\treturn r\n}, $v)"},
+	"@sinkcbindexfunc":  {Imports: []string{"strings"}, Body: "_ = strings.IndexFunc($v, func(r rune) bool {\n\trt.SinkR($id, r)\n\treturn false\n})"},
+	"@sinkmethodval":    {Body: "f$u := rt.Sink\nf$u($id, $v)"},
+}
+
+// SinkFormNames returns the pseudo-link names in a fixed order.
+func SinkFormNames() []string {
+	return []string{"@sinkdefer", "@sinkdeferclosure", "@sinkgo", "@sinkloop", "@sinkcbuser", "@sinkcbmap", "@sinkcbindexfunc"}
+}
+
+// SplitSinkForm separates the terminal sink pseudo-link, if any, from the real links.
+func SplitSinkForm(links []string) ([]string, string) {
+	if n := len(links); n > 0 && strings.HasPrefix(links[n-1], "@sink") {
+		return links[:n-1], links[n-1]
+	}
+	return links, ""
 }
